@@ -561,6 +561,8 @@ double Find_Root(std::function<double(double)> func, double xLeft, double xRight
 		{
 			// Mid point
 			double x3 = (x1 + x2) / 2.0;
+			if(std::isinf(x3))	 // (the sum overflows for ends beyond half the largest double)
+				x3 = x1 / 2.0 + x2 / 2.0;
 
 			double f3 = func(x3);
 			// New point. Ridders' formula is homogeneous of degree zero in (f1, f2, f3): evaluate it on the values scaled by a power of two
